@@ -44,6 +44,18 @@ type St struct {
 	hid  string
 }
 
+// Inner / Outer: a struct with an embedded struct (promoted fields).
+type Inner struct {
+	City  string
+	Floor int
+}
+
+type Outer struct {
+	Inner
+	Name string
+	Age  int
+}
+
 func Nil() V         { return V{K: "nil"} }
 func Bool(b bool) V  { return V{K: "bool", B: b} }
 func Str(s string) V { return V{K: "str", S: s} }
@@ -225,6 +237,21 @@ func Build(v V, env *Env) interface{} {
 	case "pstruct":
 		s := buildStruct(v, env)
 		return &s
+	case "estruct":
+		var o Outer
+		for _, e := range v.M {
+			switch e.K {
+			case "City":
+				o.City = e.V.S
+			case "Floor":
+				o.Floor = int(e.V.I)
+			case "Name":
+				o.Name = e.V.S
+			case "Age":
+				o.Age = int(e.V.I)
+			}
+		}
+		return o
 	case "nildec":
 		return (*decimal.Big)(nil)
 	case "nilptr":
